@@ -1,14 +1,16 @@
-\* C12 quick tier: 1-D rows on {0..3}, every sequence of 1..4 rows (340 data sets) x every
-\* ordered pair of centroids on the half-integer grid -1 .. 4 (121 pairs, including
+\* C12 quick tier: 1-D rows on {0..3}, 1..4 rows in canonical order (69 multisets) x every
+\* ordered pair of centroids on the half-integer grid -1.5 .. 4.5 (169 pairs, including
 \* coincident pairs, centroids on / between data points and outside the data range)
 CONSTANTS
     Dim = 1
     Vals = {0, 1, 2, 3}
     MaxN = 4
-    CBelow = 2
-    CHi = 8
+    CBelow = 3
+    CHi = 9
     Ks = {2}
-    Ordered = FALSE
+    Ordered = TRUE
+    Adjacent = FALSE
+    FixCutoff = FALSE
     Replay = FALSE
     RMod = 1
 SPECIFICATION Spec
